@@ -75,7 +75,10 @@ type Fault struct {
 	// Action: "error" (default: the call fails with ErrNo, nothing applied),
 	// "drop" (the connection dies: open transaction discarded, the call returns
 	// mysql.ErrInvalidConn, later calls driver.ErrBadConn),
-	// "after" (the call is applied, then fails with ErrNo: lost reply).
+	// "after" (the call is applied, then fails with ErrNo: lost reply),
+	// "cancel" (the caller's context is cancelled just before the call - Server.SetCancel - and the call is
+	// refused with context.Canceled without being applied; the connection stays usable, as go-sql-driver
+	// refuses a statement on a done context).
 	Action string `json:"action,omitempty"`
 	ErrNo  uint16 `json:"errno,omitempty"` // default 1105
 	Tag    string `json:"tag,omitempty"`   // only connections whose DSN has tag=<Tag> ("" any)
@@ -182,6 +185,7 @@ type Server struct {
 	// ResetDiscardsTx: when true ResetSession rolls an open transaction back
 	// (default false = what go-sql-driver/mysql does: nothing).
 	ResetDiscardsTx bool
+	cancelFn        func() // what a fault with action "cancel" calls (SetCancel)
 	journalOff      bool
 }
 
@@ -239,6 +243,14 @@ func (s *Server) checkFault(kind, sql, tag string) *Fault {
 		return f
 	}
 	return nil
+}
+
+// SetCancel registers the cancel function of the context of the call(s) about to be made
+// (nil to clear); a fault with action "cancel" invokes it.
+func (s *Server) SetCancel(fn func()) {
+	s.mu.Lock()
+	s.cancelFn = fn
+	s.mu.Unlock()
 }
 
 // Journal returns a copy of the journal (entries with Seq > afterSeq).
